@@ -498,3 +498,40 @@ Example ack_hist_ex :
   bits (b_rate (brun (brutal_init 1000000 false) (l ++ [OEvent 12000000000 0 10]))) = minAckRate_bits /\
   b_rateq (brun (brutal_init 1000000 true) l) = (1, 1).
 Proof. vm_compute. repeat split; try discriminate; reflexivity. Qed.
+
+(* ---------- the sender drives the pacer exactly as a pacer-level send history ---------- *)
+
+Lemma set_mds_twice : forall p a c, set_mds (set_mds p a) c = set_mds p c.
+Proof. reflexivity. Qed.
+
+Lemma sent_set_mds : forall bw p m t size, set_mds (sent bw (set_mds p m) t size) m = sent bw (set_mds p m) t size.
+Proof. reflexivity. Qed.
+
+Lemma bstep_event_fields : forall b t a n,
+  b_pacer (fst (bstep b (OEvent t a n))) = b_pacer b /\ b_mds (fst (bstep b (OEvent t a n))) = b_mds b.
+Proof.
+  intros. cbn [bstep]. unfold on_event.
+  destruct (_ <? 0); [split; reflexivity|].
+  destruct (update_ack_rate _ _ _) as [r q]. split; reflexivity.
+Qed.
+
+Lemma pacer_of_brun : forall l b p,
+  b_pacer b = set_mds p (b_mds b) ->
+  b_pacer (brun b l) = set_mds (prun p (psends_of b l)) (b_mds (brun b l)).
+Proof.
+  induction l as [|o l IH]; intros b p H; [exact H|].
+  destruct o as [t size|t a n|s|].
+  - cbn [brun psends_of]. cbn [bstep fst]. apply IH.
+    cbn [on_sent b_pacer b_mds prun psend_step s_bw s_mds s_t s_size]. rewrite H.
+    symmetry. apply sent_set_mds.
+  - change (brun b (OEvent t a n :: l)) with (brun (fst (bstep b (OEvent t a n))) l).
+    change (psends_of b (OEvent t a n :: l)) with (psends_of (fst (bstep b (OEvent t a n))) l).
+    destruct (bstep_event_fields b t a n) as [E1 E2]. apply IH. rewrite E1, E2. exact H.
+  - cbn [brun psends_of bstep fst]. apply IH. cbn [on_set_mds b_pacer b_mds]. rewrite H. reflexivity.
+  - cbn [brun psends_of bstep fst]. apply IH. exact H.
+Qed.
+
+Lemma pacer_of_brun_init : forall bps dis l,
+  let b := brun (brutal_init bps dis) l in
+  b_pacer b = set_mds (prun pacer_init (psends_of (brutal_init bps dis) l)) (b_mds b).
+Proof. intros. apply pacer_of_brun. reflexivity. Qed.
